@@ -63,7 +63,7 @@ def run(tier, seed):
     ok, info = prep(PROP)
     ob, dis = proof_gate(rep, PROP, ok, info)
     rng = random.Random(seed)
-    n = 400 if tier == "quick" else 1500
+    n = 400 if tier == "quick" else 4000
     jobs, plan = [], []
     for ci in range(n):
         k = rng.randint(2, 4)
